@@ -269,7 +269,7 @@ ADDENDUM = {
            "distance from each other and the ends: the call succeeds with exactly len+1 pieces, every piece is well formed, non-periodic, of the same order, its domain in that direction is the "
            "consecutive sub-interval [x_{j-1}, x_j] (tiling from start to end), the other directions are untouched, and obj_eval of piece j equals obj_eval of the original at every parameter tuple "
            "of its sub-interval (up to 2*tol below an interior piece end, where the piece evaluates the left and the original the right limit); values outside (start,end) are skipped. "
-           "Still L1/L2 only: subdivide, the unification inside append (the periodic branch: see the wave-3 addition below).",
+           "Still L1/L2 only: subdivide (the periodic branch and append: see the additions below).",
     'C08': " ADDED: seam continuity -- for knot functions with exact periodic images and periodic coefficients the wrapped sum and all its derivatives up to the periodic continuity agree from the "
            "right at start and from the left at end (also for finite knot lists; B-splines and their derivatives are continuous at knots of sufficiently low multiplicity, any multiplicity); "
            "translation by a period leaves the wrapped sums unchanged; BSplineBasis.make_periodic of an open basis gives a sorted knot list whose ghost knots are the exact periodic images with "
@@ -309,9 +309,21 @@ ADDENDUM3 = {
     'C08': " ADDED (wave 3): lower_periodic step and iteration END TO END through obj_eval (Proofs/PeriodicEndToEnd.v lower_periodic_step_eval, lower_periodic_eval).",
     'C13': " ADDED (wave 3): circle_segment_from_three_points -- the linear system the code solves has the determinant of the three points, its solution is the unique circumcentre, the arc passes through first/middle/last point, is planar and on the circle; n-gon, line, polygon, square, cube factories with evaluation theorems (Proofs/ThreePoint.v); Gen/DiscSquare.v regenerated from surface_factory.disc and proved equal to the hand net (DiscSquareTie.v).",
     'C14': " ADDED (wave 3): Model/Loft.v, Model/InterpMore.v -- loft (surface and volume) passes through every section at its parameter, also after set_dimension; cubic curve interpolation with natural/tangent/Hermite/tangent-natural/periodic end conditions passes through the data and meets the end condition (periodic: closed and C2); volume interpolation; surface/volume least squares satisfy the normal equations and are projections; Paramcoq transfer; tied by L1 (runner loft, volume_interpolate, surface_lsq, volume_lsq, cubic_periodic).",
-    'C18': " ADDED (wave 3): Model/Faces2.v -- two structured patches glued along one face in any of the 8 orientations: interface faces in closed form, owner/neighbour adjacent, each pair once, six faces per cell in both patches, the final owner<neighbour assertion holds iff the lower-numbered patch owns the interface, normals and nodes of interface faces, total count; tied by L1 (runner model_faces, orientation read from the implementation). Rings (a volume adjacent to itself) are L2 only; they exposed the defect repaired by fix e110469.",
+    'C18': " ADDED (wave 3): Model/Faces2.v -- two structured patches glued along one face in any of the 8 orientations: interface faces in closed form, owner/neighbour adjacent, each pair once, six faces per cell in both patches, the final owner<neighbour assertion holds iff the lower-numbered patch owns the interface, normals and nodes of interface faces, total count; tied by L1 (runner model_faces, orientation read from the implementation). Rings (a volume adjacent to itself) are L2 only.",
 }
 for _k, _v in ADDENDUM3.items():
+    ADDENDUM[_k] = ADDENDUM.get(_k, '') + _v
+
+# wave 4 (session 4)
+ADDENDUM4 = {
+    'C07': " ADDED (wave 4): Model/SplitSnap.v models the REPAIRED split (fix eba13ec: a splitting value in continuity()'s window [k-tol, k+tol) of a knot is replaced by that knot first); Proofs/SplitSnapProofs.v: on the old theorems' inputs the repaired routine is the old one (all end-to-end split theorems re-stated for it, periodic ones included), a value within the tolerance window of an isolated knot splits AT that knot (tiling and evaluation), the periodic recursion's second snap is the identity, and old_split_defect keeps the defect as a machine-checked fact about the faithful model of the old routine; knots separated by more than tol remain a hypothesis (witness given). Proofs/AppendEndToEnd.v: Curve.append END TO END on obj_append (compatibility + order elevation + merge): success, well-formedness, domain, left/right evaluation, and split-then-append re-joins to the original map with the junction PROVED (not assumed).",
+    'C12': " ADDED (wave 4): Proofs/IdenticalPeriodic.v -- make_splines_identical in PERIODIC directions for equal orders: both periodic with equal continuity, one periodic/one open (lower_periodic inside), both periodic with different continuity: success, same order, domain [0,1], EQUAL knot lists (period multiplicities are the maxima), both maps preserved on the base period; hypotheses: canonical periodic knot lists with at least order+continuity functions, strict seam, equal seam multiplicity, separation across the seam (the implementation was run where each hypothesis fails: different seam multiplicities give knot vectors of different length -- noted in DESIGN.md 16.13).",
+    'C15': " ADDED (wave 4): Model/EdgeLoop.v transcribes the four-curve loop search of edge_curves, old (greedy) and repaired (fix 6667c22, exhaustive over the 48 orders/directions of the last three curves); Proofs/EdgeLoopProofs.v: repaired search sound (all four junctions close), complete without any separation hypothesis, Err iff no arrangement closes, first closing candidate in the code's loop order; the old search's incompleteness and its acceptance of open chains are kept as refutation theorems. Tied by L1 (runner edge_loop: the arrangement realised by the implementation's surface).",
+    'C16': " ADDED (wave 4): Proofs/IntegrateFTC.v (Coquelicot) -- the integral of every basis function over ANY interval, for every degree and knot multiplicity, is the difference of the closed-form antiderivative (it never jumps); integral over the support; the integrals sum to the interval length; the model's basis_integrate IS that integral for every non-periodic basis wf_basis_R accepts (at the snapped end points, as in the code).",
+    'C17': " ADDED (wave 4): Model/Handed.v, Proofs/HandedProofs.v -- is_right_hand under re-orientation: the normalised triple product of a re-oriented patch is sign(orientation) x the original for all 48 (8) orientations, sign is a homomorphism of compose, value in [-1,1]; a patch passing with margin fails after every odd re-orientation and passes with the same value after every even one; executable square-root-free form of the test with its specification, tied by L1 (runner right_hand vs utils.is_right_hand); chain rule for obj_swap/obj_reverse at the midpoint on the analytic partials of obj_eval (the bridge to obj_deriv is not made).",
+    'C18': " ADDED (wave 4): Model/OFoam.v, Proofs/OFoamProofs.v (axiom-free) -- OpenFOAM face ordering for EVERY face list: the three stable sorts give a permutation with internal faces first, sorted by (owner, neighbour), names contiguous and increasing; the groupby loop gives one block per distinct name with startFace/nFaces covering exactly the boundary faces, first startFace = number of internal faces; tied by L1 against the written files entry by entry (runner ofoam). Three defects repaired on the way: e110469 (faces() of a volume adjacent to itself), 026dd4c (boundary count without internal faces), 7544c00 (cps() with rational patches).",
+}
+for _k, _v in ADDENDUM4.items():
     ADDENDUM[_k] = ADDENDUM.get(_k, '') + _v
 
 PENDING_REASON = "not claimed in this revision: model/theorems for this property are still being built (see DESIGN.md section 8 for the plan)"
